@@ -21,12 +21,14 @@ import (
 	"errors"
 	"fmt"
 	"io"
+	"io/fs"
 	"net/http"
 	"net/url"
 	"os"
 	"path/filepath"
 	"strings"
 	"sync"
+	"sync/atomic"
 	"testing/fstest"
 	"time"
 
@@ -62,6 +64,96 @@ type tcase struct {
 	Fault   fault
 	HTTP    string // wget: server behaviour
 	NoSum   bool   // wget: no checksum announced
+	// Reads: how the file the sender reads from answers Read calls (upload: the device's fs.File; download: the
+	// owner's Contents; wget: the HTTP body): "" full reads; "half" every read returns half of what was asked;
+	// "first1" the first read returns one byte; "second-1" the second read returns one byte less than asked;
+	// "eof-with-data" the last bytes arrive together with io.EOF (all legal for an io.Reader)
+	Reads string
+}
+
+// shortReader answers Read calls according to a pattern; it never invents or drops bytes.
+type shortReader struct {
+	data    []byte
+	pos     int64
+	calls   int
+	pattern string
+}
+
+func (s *shortReader) Read(p []byte) (int, error) {
+	if s.pos >= int64(len(s.data)) {
+		return 0, io.EOF
+	}
+	want := len(p)
+	if rest := len(s.data) - int(s.pos); want > rest {
+		want = rest
+	}
+	n := want
+	switch s.pattern {
+	case "half":
+		n = (want + 1) / 2
+	case "first1":
+		if s.calls == 0 {
+			n = 1
+		}
+	case "second-1":
+		if s.calls == 1 && want > 1 {
+			n = want - 1
+		}
+	}
+	s.calls++
+	if n > want {
+		n = want
+	}
+	if n < 1 && want > 0 {
+		n = 1
+	}
+	copy(p, s.data[s.pos:s.pos+int64(n)])
+	s.pos += int64(n)
+	if s.pattern == "eof-with-data" && s.pos == int64(len(s.data)) {
+		return n, io.EOF
+	}
+	return n, nil
+}
+
+func (s *shortReader) Seek(off int64, whence int) (int64, error) {
+	switch whence {
+	case io.SeekStart:
+		s.pos = off
+	case io.SeekCurrent:
+		s.pos += off
+	case io.SeekEnd:
+		s.pos = int64(len(s.data)) + off
+	}
+	return s.pos, nil
+}
+func (s *shortReader) Close() error { return nil }
+
+// shortFS serves one file through a shortReader.
+type shortFS struct {
+	name    string
+	data    []byte
+	pattern string
+}
+
+type shortFile struct {
+	*shortReader
+	info fs.FileInfo
+}
+
+func (f shortFile) Stat() (fs.FileInfo, error) { return f.info, nil }
+
+func (s shortFS) Open(name string) (fs.File, error) {
+	m := fstest.MapFS{s.name: &fstest.MapFile{Data: s.data}}
+	f, err := m.Open(name)
+	if err != nil {
+		return nil, err
+	}
+	info, err := f.Stat()
+	_ = f.Close()
+	if err != nil {
+		return nil, err
+	}
+	return shortFile{&shortReader{data: s.data, pattern: s.pattern}, info}, nil
 }
 
 func (c tcase) String() string { b, _ := json.Marshal(c); return string(b) }
@@ -397,13 +489,21 @@ func (wd *world) run(c tcase) outcome {
 	switch c.Kind {
 	case "download":
 		modName = "fdo.download"
-		owner = &fsim.DownloadContents[*bytes.Reader]{Name: fileName, Contents: bytes.NewReader(data), MustDownload: c.Must, ChunkSize: c.Chunk}
+		if c.Reads != "" {
+			owner = &fsim.DownloadContents[*shortReader]{Name: fileName, Contents: &shortReader{data: data, pattern: c.Reads}, MustDownload: c.Must, ChunkSize: c.Chunk}
+		} else {
+			owner = &fsim.DownloadContents[*bytes.Reader]{Name: fileName, Contents: bytes.NewReader(data), MustDownload: c.Must, ChunkSize: c.Chunk}
+		}
 		cfg.DeviceModules = map[string]serviceinfo.DeviceModule{modName: &fsim.Download{
 			CreateTemp: createTemp, NameToPath: func(n string) string { return filepath.Join(dest, filepath.Base(n)) }}}
 	case "upload":
 		modName = "fdo.upload"
 		owner = &fsim.UploadRequest{Dir: dest, Name: fileName, CreateTemp: createTemp}
-		cfg.DeviceModules = map[string]serviceinfo.DeviceModule{modName: &fsim.Upload{FS: fstest.MapFS{fileName: &fstest.MapFile{Data: data}}}}
+		var ufs fs.FS = fstest.MapFS{fileName: &fstest.MapFile{Data: data}}
+		if c.Reads != "" {
+			ufs = shortFS{fileName, data, c.Reads}
+		}
+		cfg.DeviceModules = map[string]serviceinfo.DeviceModule{modName: &fsim.Upload{FS: ufs}}
 	case "wget":
 		modName = "fdo.wget"
 		sum := sha512.Sum384(data)
@@ -465,6 +565,8 @@ func reports(c tcase, o outcome) (success, failure bool) {
 	return
 }
 
+var eofWithDataGivenUp atomic.Int64
+
 func judge(c tcase, o outcome) []viol {
 	var vs []viol
 	add := func(k, f string, a ...any) { vs = append(vs, viol{k, fmt.Sprintf(f, a...)}) }
@@ -474,6 +576,15 @@ func judge(c tcase, o outcome) []viol {
 	}
 	success, failure := reports(c, o)
 	if honest {
+		if o.err != nil && c.Reads == "eof-with-data" {
+			// a source that hands out its last bytes together with io.EOF: the sender may give up (the library treats
+			// any error from Read as fatal). "Identical or nothing": giving up is accepted, a file is not.
+			if len(o.dest) > 0 {
+				add("file-after-sender-gave-up", "the sender failed on a read that returned data together with io.EOF, yet %d file(s) appeared at the destination", len(o.dest))
+			}
+			eofWithDataGivenUp.Add(1)
+			return vs
+		}
 		if o.err != nil {
 			add("honest-transfer-fails:"+classify(o.err), "TO2 fails: %v", o.err)
 			return vs
@@ -632,6 +743,19 @@ func cases(thorough bool) []tcase {
 			out = append(out, tcase{Kind: "upload", Size: sz, RecvMTU: p.recv, SendMTU: p.send, Content: sz % 3, Fault: none})
 		}
 	}
+	// senders whose source answers Read calls short (legal for any io.Reader / fs.File): the file must still arrive
+	// identical, or nothing
+	for _, pat := range []string{"half", "first1", "second-1", "eof-with-data"} {
+		for _, sz := range []int{1, 2, 5, 1013, 1014, 1015, 2027, 2028, 2029, 3100} {
+			out = append(out, tcase{Kind: "upload", Size: sz, Content: sz % 3, Fault: none, Reads: pat})
+			for _, ch := range []int{0, 7, 1268} {
+				if ch == 7 && sz > 300 {
+					continue
+				}
+				out = append(out, tcase{Kind: "download", Size: sz, Chunk: ch, Content: sz % 3, Must: sz%2 == 0, Fault: none, Reads: pat})
+			}
+		}
+	}
 	// wget: sizes and server behaviours
 	for _, sz := range []int{1, 2, 100, 1014, 4096, 70000} {
 		for _, b := range []string{"ok", "404", "500", "refuse", "reset-mid", "reset-end", "flip", "shorter", "longer", "other"} {
@@ -774,6 +898,7 @@ func main() {
 	r.Set("seconds_faults", int64(time.Since(t0).Seconds()))
 	r.Assume("MTUs below the protocol default of 1300 are outside the grid: fdo.upload sends fixed 1014-byte chunks that the protocol sizes for that minimum")
 	r.Assume("a transfer whose length was raised in transit never completes; the harness cuts the run after 40 consecutive rounds without service info in either direction instead of waiting for the library's 1e6-round limit")
+	r.Set("transfers_given_up_on_read_returning_data_with_eof", int(eofWithDataGivenUp.Load()))
 	r.Finish()
 }
 
